@@ -107,6 +107,24 @@ struct B {
 #endif
 };
 template <unsigned SZ> inline int val(const B<SZ> &v) { return v.value(); }
+// implicit (defaulted) but non trivial default constructor, scalar members without initialiser: value-initialisation (resize(n), vector(n),
+// append(n)) must zero them, whatever the storage held before
+struct HasCtor { int z; HasCtor() : z(7) {} };
+struct Rec {
+  int id;
+  unsigned tag;
+  HasCtor h;
+  Rec() = default;
+  Rec(int v) : id(v), tag(static_cast<unsigned>(v) * 3u) {}
+  int value() const { return h.z == 7 ? id * 4 + static_cast<int>(tag % 4u) : -77777; }
+  bool operator==(const Rec &o) const { return id == o.id; }
+  bool operator<(const Rec &o) const { return id < o.id; }
+  bool operator>(const Rec &o) const { return id > o.id; }
+#if __cplusplus >= 202002L
+  std::strong_ordering operator<=>(const Rec &o) const { return id <=> o.id; }
+#endif
+};
+inline int val(const Rec &v) { return v.value(); }
 typedef SBase<false> S;
 typedef SBase<true> SR;
 inline int val(int v) { return v; }
@@ -529,12 +547,15 @@ int main(int argc, char **argv) {
       snprintf(head, sizeof head, "=== script %ld\n", h);
       g_out += head;
       if (sec == 0) {
-        switch (h % 16) {
+        switch (h % 19) {
           case 8: vector_script<amc::SmallVector<B<3>, 3>, 20>("B3,3", rng, nops); break;
           case 9: vector_script<amc::SmallVector<B<5>, 2>, 20>("B5,2", rng, nops); break;
           case 10: vector_script<amc::SmallVector<B<7>, 2, std::allocator<B<7> >, unsigned char>, 20>("B7,2,u8", rng, nops); break;
           case 11: vector_script<amc::SmallVector<B<6>, 5>, 20>("B6,5", rng, nops); break;
           case 12: vector_script<amc::SmallVector<B<3>, 11, amc::allocator<B<3> >, unsigned short>, 30>("B3,11,u16", rng, nops); break;
+          case 16: vector_script<amc::vector<Rec>, 30>("Rec", rng, nops); break;
+          case 17: vector_script<amc::SmallVector<Rec, 3>, 24>("Rec,3", rng, nops); break;
+          case 18: vector_script<amc::FixedCapacityVector<Rec, 10>, 10>("Rec,fixed10", rng, nops); break;
           case 13: vector_script<amc::vector<signed char>, 40>("schar", rng, nops); break;
           case 14: vector_script<amc::SmallVector<char, 6>, 30>("char,6", rng, nops); break;
           case 15: vector_script<amc::FixedCapacityVector<signed char, 12>, 12>("schar,fixed12", rng, nops); break;
